@@ -30,12 +30,14 @@ func (e Aes256CtsHmacSha384192) GetHashID() int32 {
 
 // GetKeyByteSize returns the number of bytes for key of this etype.
 func (e Aes256CtsHmacSha384192) GetKeyByteSize() int {
-	return 192 / 8
+	// RFC 8009 section 5: the protocol key (and Ke) of aes256-cts-hmac-sha384-192 is 256 bits.
+	return 256 / 8
 }
 
 // GetKeySeedBitLength returns the number of bits for the seed for key generation.
 func (e Aes256CtsHmacSha384192) GetKeySeedBitLength() int {
-	return e.GetKeyByteSize() * 8
+	// Used by rfc8009.DeriveKey as the default output size: Kc and Ki are 192 bits.
+	return 192
 }
 
 // GetHashFunc returns the hash function for this etype.
